@@ -501,11 +501,30 @@ func (s *Subvolume) NumVoxels() int64 {
 	if s == nil || s.size.NumDims() == 0 {
 		return 0
 	}
-	voxels := int64(s.size.Value(0))
-	for dim := uint8(1); dim < s.size.NumDims(); dim++ {
-		voxels *= int64(s.size.Value(dim))
+	voxels := int64(1)
+	for dim := uint8(0); dim < s.size.NumDims(); dim++ {
+		voxels = mulVoxels(voxels, int64(s.size.Value(dim)))
 	}
 	return voxels
+}
+
+// MaxNumVoxels is what NumVoxels() returns for a geometry with more voxels than that: far
+// beyond any request limit, yet small enough to be multiplied by a voxel size without
+// wrapping around int64.
+const MaxNumVoxels = int64(1) << 55
+
+// mulVoxels multiplies a running voxel count by the size of one more dimension.  A size that
+// is not positive gives 0 voxels (callers treat that as an illegal geometry) and the product
+// saturates at MaxNumVoxels instead of wrapping, so that size limits cannot be bypassed by
+// sizes whose product overflows.
+func mulVoxels(voxels, n int64) int64 {
+	if voxels <= 0 || n <= 0 {
+		return 0
+	}
+	if voxels > MaxNumVoxels/n {
+		return MaxNumVoxels
+	}
+	return voxels * n
 }
 
 func (s *Subvolume) StartPoint() Point {
@@ -666,9 +685,7 @@ func (s OrthogSlice) Size() Point {
 }
 
 func (s OrthogSlice) NumVoxels() int64 {
-	x := int64(s.size[0])
-	y := int64(s.size[1])
-	return x * y
+	return mulVoxels(mulVoxels(1, int64(s.size[0])), int64(s.size[1]))
 }
 
 func (s OrthogSlice) StartPoint() Point {
